@@ -177,6 +177,20 @@ def record(index, rep):
         ok = None not in p and p == sorted(p) and p[-1] == len(seq) - 1
     rep.check(ok, rule, "final step reads this month's home-kill and starvation deaths",
               "calculate_final_population does not run last, after this month's home-kill and starvation deaths were recorded", loc=loc(ANIM, ml))
+    if len(last) == 1:
+        exits = [n for st in last[0].body for n in ([st] + list(walk_no_nested(st))) if isinstance(n, (ast.Continue, ast.Break, ast.Return))]
+        rep.check(not exits, rule, "every herd reaches the final step every month (no continue/break in the month-end loop)",
+                  "a continue/break/return in the month-end per-animal loop (line " + ", ".join(str(e.lineno) for e in exits[:3]) + ") lets a herd skip "
+                  "calculate_final_population: that month's recorded deaths and home-kill are never taken off the herd", loc=loc(ANIM, last[0]))
+        cond = [st for st in last[0].body if isinstance(st, (ast.If, ast.Try, ast.While, ast.For, ast.With)) and
+                "calculate_final_population" in norm_src(st)]
+        rep.check(not cond, rule, "the final step is unconditional", "calculate_final_population runs only under a condition", loc=loc(ANIM, last[0]))
+    # the same for the other per-animal passes of the month loop: a skipped herd would keep last month's records
+    for lp in [s for s in ml.body if isinstance(s, ast.For)]:
+        exits = [n for st in lp.body for n in ([st] + list(walk_no_nested(st))) if isinstance(n, (ast.Continue, ast.Break, ast.Return))]
+        rep.check(not exits, rule, f"per-animal pass at +{lp.lineno - ml.lineno}: no herd is skipped",
+                  "a continue/break/return lets a herd skip part of the month's bookkeeping (line " + ", ".join(str(e.lineno) for e in exits[:3]) + ")",
+                  loc=loc(ANIM, lp))
     rep.check(norm_src(ml.body[-1]) == "AnimalPopulation.appened_current_populations(all_animals)", rule, "population recorded at month end",
               "the end-of-month head count is not appended to the population list after all animals were updated", loc=loc(ANIM, ml))
     first = [norm_src(s)[:80] for s in ml.body[:3]]
